@@ -66,6 +66,9 @@ structure Desc where
   images : List Img
   graphics : Nat
   des : List Des
+  /-- NITF 2.0 only: number of symbol and label segments (2.1 files have none) -/
+  symbols : Nat := 0
+  labels : Nat := 0
   deriving DecidableEq, Repr
 
 /-- reader-side switches read from the source on every run (harness/c14.py `source_policy`):
